@@ -1,6 +1,7 @@
 """C16 - SDF flow descriptions are translated to the filter they denote."""
 import json
 import random
+import threading
 from concurrent.futures import ThreadPoolExecutor
 
 from lib import common
@@ -379,7 +380,7 @@ Definition agrees (c : case) : bool :=
 (* the property, applied to what the implementation returned (no reference to the model) *)
 Definition monitor (c : case) : bool :=
   match c_p c, c_a c with
-  | IPok f, IAok al => mon_pack (c_up c) f al
+  | IPok f, IAok al => mon_pack (c_up c) f al && mon_skeleton (c_s c) f
   | IPerr, IAerr => true
   | _, _ => false                      (* a panic, or parse and pack disagree on acceptance *)
   end
@@ -390,6 +391,14 @@ Definition monitor (c : case) : bool :=
      | None => true
      end.
 
+(* which clause fails *)
+Definition m_fault (c : case) : bool :=
+  match c_p c, c_a c with IPok _, IAok _ => true | IPerr, IAerr => true | _, _ => false end.
+Definition m_pack (c : case) : bool :=
+  match c_p c, c_a c with IPok f, IAok al => mon_pack (c_up c) f al | _, _ => true end.
+Definition m_skel (c : case) : bool :=
+  match c_p c with IPok f => mon_skeleton (c_s c) f | _ => true end.
+
 Definition unmodelled (c : case) : bool :=
   match parse_flow_desc (c_s c) with Unmodelled => true | _ => false end.
 
@@ -398,15 +407,29 @@ Fixpoint bad_idx {A} (f : A -> bool) (l : list A) (i : N) : list N :=
 """
 
 
+WHY = {}
+WHY_LOCK = threading.Lock()
+WHY_TEXT = {1: "the implementation panicked, or ParseFlowDesc and newFlowDesc disagree on acceptance",
+            2: "the packed attributes do not decode to the parsed filter (source and destination exchanged for uplink)",
+            3: "an accepted string lacks the grammar's keyword skeleton, or its protocol numeral has another value than the protocol reported",
+            4: "a string of the grammar was rejected, or the filter parsed/packed by the implementation is not the one the rule denotes"}
+
+
 def evaluate_chunk(ctx, cases, impl, name):
     items = [coq_case(c, r) for c, r in zip(cases, impl)]
     body = PRELUDE + "Definition cases : list case := \n" + clist(items) + ".\n"
     body += "Definition mism := Eval vm_compute in bad_idx agrees cases 0.\n"
     body += "Definition monf := Eval vm_compute in bad_idx monitor cases 0.\n"
     body += "Definition unmo := Eval vm_compute in bad_idx (fun c => negb (unmodelled c)) cases 0.\n"
-    res, log = common.run_coq_cases(ctx, name, body, REQUIRES, ["mism", "monf", "unmo"])
+    body += "Definition why := Eval vm_compute in map (fun i => let c := nth (N.to_nat i) cases (mkc [] false IPerr IAerr None None) in\n"
+    body += "  (i, if negb (m_fault c) then 1 else if negb (m_pack c) then 2 else if negb (m_skel c) then 3 else 4)) monf.\n"
+    res, log = common.run_coq_cases(ctx, name, body, REQUIRES, ["mism", "monf", "unmo", "why"])
     if res is None:
         return None, None, None, log
+    w = common.parse_N_list(res["why"])
+    with WHY_LOCK:
+        for k in range(0, len(w) - 1, 2):
+            WHY[(name, w[k])] = w[k + 1]
     return (common.parse_N_list(res["mism"]), common.parse_N_list(res["monf"]), common.parse_N_list(res["unmo"]), log)
 
 
@@ -416,6 +439,7 @@ def evaluate(ctx, cases, impl, name, chunk=500, workers=16):
         jobs.append((start, cases[start:start + chunk], impl[start:start + chunk], "%s_%d" % (name, k)))
     mism, monf, unmo = [], [], []
     with ThreadPoolExecutor(max_workers=workers) as ex:
+        nm_of = {start: nm for start, _, _, nm in jobs}
         futs = [(start, ex.submit(evaluate_chunk, ctx, cs, im, nm)) for start, cs, im, nm in jobs]
         for start, f in futs:
             a, b, u, log = f.result()
@@ -423,6 +447,8 @@ def evaluate(ctx, cases, impl, name, chunk=500, workers=16):
                 return None, None, None, log
             mism += [start + i for i in a]
             monf += [start + i for i in b]
+            for i in b:
+                WHY[start + i] = WHY.get((nm_of[start], i), 0)
             unmo += [start + i for i in u]
     return mism, monf, unmo, ""
 
@@ -524,20 +550,20 @@ def run(ctx, replay=None):
                            for c, r in list(zip(cases, impl))[:3]]
     coverage["model_impl_mismatches"] = len(mism) + len(cmism)
     coverage["monitor_failures"] = len(monf) + len(cmonf)
-    for i in monf[:2]:
+    # report the shortest failing inputs (selection instead of shrinking: the generators emit many short cases)
+    for i in sorted(monf, key=lambda j: len(cases[j]["s"]))[:2]:
         c = cases[i]
-        what = ("implementation fault or parse/pack disagreement" if impl[i]["parse"] not in ("ok", "err") or impl[i]["attrs"] not in ("ok", "err")
-                else "the filter parsed/packed by the implementation is not the one the rule denotes" if c.get("rule") is not None
-                else "the packed attributes do not decode to the parsed filter (exchanged for uplink)")
+        what = WHY_TEXT.get(WHY.get(i, 0), "monitor false")
         ctx.violation({"property": "C16", "what": what, "cases": [show(c)], "impl": impl[i],
                        "replay_cmd": "python3 check.py C16 --replay <this file>"})
     for i in cmonf[:1]:
         ctx.violation({"property": "C16", "what": "unpack (convertSlice ports) <> ports", "ports": ccases[i], "impl_bytes": cimpl[i]})
+    msel = sorted(mism, key=lambda j: len(cases[j]["s"]))[:3]
     if not monf and not cmonf and (mism or cmism or broken):
         ctx.violation({"property": "C16", "broken_obligations": broken,
                        "correspondence": "model parse_flow_desc/new_flow_desc <> implementation (or reference decoder <> DecodeFlowDesc)" if mism
                        else "model convert_slice <> implementation" if cmism else None,
-                       "cases": [show(cases[i]) for i in mism[:3]], "impl": [impl[i] for i in mism[:3]],
+                       "cases": [show(cases[i]) for i in msel], "impl": [impl[i] for i in msel],
                        "conv_cases": [ccases[i] for i in cmism[:3]], "conv_impl": [cimpl[i] for i in cmism[:3]],
                        "make_log": info.get("make_log", "")[-1500:]}, no_input=True)
     return ctx.finish(coverage, ["inputs with an octet >= 0x80 or a ':' in an address token are outside the model (no-fault and "
